@@ -315,6 +315,8 @@ pub struct CbRec {
     pub at_xold: Vec<f64>,
     pub at_x: Vec<f64>,
     pub bounds: (f64, f64),
+    /// interpolant evaluated at xold + theta*(x - xold) for the probe thetas
+    pub at_theta: Vec<Vec<f64>>,
     /// ode calls observed so far (filled by the caller through `ode_counter`)
     pub ode_calls_before: u64,
 }
@@ -332,11 +334,12 @@ pub struct RecSolOut<'a> {
     /// action at callback index k (0 = initial call); missing => Continue
     pub script: Vec<(usize, Act)>,
     pub counter: Option<&'a RefCell<Log>>,
+    pub thetas: Vec<f64>,
 }
 
 impl<'a> RecSolOut<'a> {
     pub fn new(script: Vec<(usize, Act)>) -> Self {
-        RecSolOut { recs: Vec::new(), script, counter: None }
+        RecSolOut { recs: Vec::new(), script, counter: None, thetas: Vec::new() }
     }
 }
 
@@ -352,6 +355,7 @@ impl<'a> SolOut for RecSolOut<'a> {
             at_xold: vec![],
             at_x: vec![],
             bounds: (0.0, 0.0),
+            at_theta: vec![],
             ode_calls_before: self.counter.map(|c| { let l = c.borrow(); l.ode_calls + l.ode_calls_in_jac }).unwrap_or(0),
         };
         if let Some(ip) = interp {
@@ -362,6 +366,11 @@ impl<'a> SolOut for RecSolOut<'a> {
             rec.at_xold = a;
             rec.at_x = b;
             rec.bounds = ip.bounds();
+            for th in &self.thetas {
+                let mut v = vec![0.0; n];
+                ip.interpolate(xold + th * (*x - xold), &mut v);
+                rec.at_theta.push(v);
+            }
         }
         self.recs.push(rec);
         for (idx, act) in &self.script {
